@@ -30,6 +30,7 @@ import json
 import os
 import random
 import re
+import shutil
 import sys
 
 import vlib as v
@@ -689,7 +690,7 @@ MUX_BEHAVIOURS = ["known", "unknown", "late", "garbage", "nonbinding", "nouser",
 MUX_CLASSES = ["known", "unknown", "garbage", "silent", "earlyclose"]     # one bad-first-frame class stands for all four in the quick model check
 MUX_INVARIANTS = ["TypeOK", "RoutedByFirstUfrag", "RepliesOnSameConn", "BadFirstFrameClosed", "ProvisionalExpires", "WgCounts",
                   "CloseCompletes", "CloseProgress", "NoStaleRemoval"]
-MUX_PARTS = {"RoutedSafe": "RoutedByFirstUfrag", "RepliesRouted": "RoutedByFirstUfrag", "RoutedComplete": "RoutedByFirstUfrag",
+MUX_PARTS = {"RoutedSafe": "RoutedByFirstUfrag", "RepliesRouted": "RoutedByFirstUfrag", "ReplyAccepted": "RoutedByFirstUfrag", "RoutedComplete": "RoutedByFirstUfrag",
              "HandleAlive": "RoutedByFirstUfrag", "NoSpuriousClose": "RoutedByFirstUfrag",
              "BadFirstFrameClosed": "BadFirstFrameClosed", "ProvisionalExpires": "ProvisionalExpires",
              "CloseCompletes": "CloseCompletes", "GetAfterClose": "CloseCompletes"}
@@ -846,6 +847,7 @@ def mux_features(part, lines, idx):
             burst.discard(x["u"])
             pending.add(x["u"])
     f["reregistered_right_after_remove"] = bool(burst)
+    f["after_handle_abort"] = any(lines[i]["ev"] == "HAbort" for i in range(start + 1, idx))
     if e["ev"] == "Exit":
         f["leak"] = e["leak"]
     f["trace"] = {"scenario": lines[start]["id"], "line": idx - start, "before": e["ev"], "beh": beh, "burst_ufrags": sorted(burst), "note": e.get("note", "")[:200]}
@@ -876,7 +878,7 @@ def mux_judge(work, verdict, stats, outfile, tag, scs, timeout=600):
         start = max(i for i in range(idx + 1) if lines[i]["ev"] == "Reset")
 
         def writer(path, start=start, idx=idx, part=part):
-            json.dump({"property": "C15", "family": FAMILY, "predicate": MUX_PARTS[part], "part": part, "driver": "TestMux",
+            json.dump({"property": verdict.prop, "family": FAMILY, "predicate": MUX_PARTS[part], "part": part, "driver": "TestMux",
                        "scenario": byid.get(lines[start]["id"]), "events": lines[start:idx + 1]}, open(path, "w"))
         verdict.report(feat, writer)
     return lines
@@ -960,6 +962,37 @@ def c15(tier, seed):
     verdict.coverage.update(stats)
     verdict.assumptions = C15_ASSUME
     return verdict.finish()
+
+
+def handle_abort_check(work, verdict, stats, copies=6):
+    """C13 on TCP-mux handles with a TCP connection attached: the directed HAbort scenarios (SetDeadline(now) + Close on one of
+    two handles of a packet connection) are driven through the TCP mux driver and judged by the TcpMux monitor; a violation
+    (the sibling loses its connection or its packets) is reported under the calling property's verdict."""
+    binary = v.build_harness(work, pkg=FAMILY)
+    for f in os.listdir(os.path.join(v.SPECS, FAMILY)):
+        shutil.copy(os.path.join(v.SPECS, FAMILY, f), work.dir)
+    scs = [json.loads(json.dumps(s)) for _ in range(copies) for s in MUX_HABORT]
+    for i, s in enumerate(scs):
+        s["id"] = i + 1
+    st = new_stats()
+    st.update({"real_traces": 0, "real_steps": 0, "skipped_actions": 0, "bubble_leaks": 0, "monitor_states": 0})
+    cout = run_mux_driver(work, binary, scs, "habort", st)
+    mux_judge(work, verdict, st, cout, "habort", scs)
+    stats["tcp_handle_abort_scenarios"] = len(scs)
+    stats["real_traces"] = stats.get("real_traces", 0) + st["real_traces"]
+    stats["real_steps"] = stats.get("real_steps", 0) + st["real_steps"]
+
+
+# C13 on TCP-mux handles (run from the C13 check, plan_udpmux): what an agent does to ITS handle when it drops a candidate
+MUX_HABORT = [
+    {"beh": ["known", "known", "silent"], "rb": 1, "later": 2, "tag": "directed: one of two handles is aborted (SetDeadline(now) + Close), the sibling goes on",
+     "acts": [{"ev": "Get", "u": "u1", "w": True}, {"ev": "Get", "u": "u1", "w": True}, {"ev": "Dial", "c": 1, "w": True}, {"ev": "Send", "c": 1, "w": True},
+              {"ev": "HAbort", "h": 2, "w": True}, {"ev": "Advance", "w": True}, {"ev": "Send", "c": 1, "w": True}, {"ev": "Reply", "h": 1, "c": 1, "w": True},
+              {"ev": "Dial", "c": 2, "w": True}, {"ev": "Send", "c": 2, "w": True}, {"ev": "Send", "c": 1, "w": True}]},
+    {"beh": ["known", "silent", "silent"], "rb": 1, "later": 2, "tag": "directed: one of two handles is aborted, reads and later packets only",
+     "acts": [{"ev": "Get", "u": "u1", "w": True}, {"ev": "Get", "u": "u1", "w": True}, {"ev": "Dial", "c": 1, "w": True}, {"ev": "Send", "c": 1, "w": True},
+              {"ev": "HAbort", "h": 2, "w": True}, {"ev": "Advance", "w": True}, {"ev": "Send", "c": 1, "w": True}, {"ev": "Send", "c": 1, "w": True}]},
+]
 
 
 # directed scenarios replayed in every run; the first is the history that reproduced F-C15a (repaired by 1201bc6; the same
